@@ -1,10 +1,12 @@
 package main
 
 import (
+	"bytes"
 	"context"
 	"errors"
 	"fmt"
 	"io"
+	"os"
 	"runtime"
 	"strings"
 	"sync"
@@ -111,6 +113,9 @@ func implReaderX(chunks [][]byte, eof bool, failData []byte) (msgs []string, sta
 // stream's findings by streamReader)
 var aliasFindings []finding
 
+// pasteStringFindings: paste messages whose String() is not the bracketed text (same route)
+var pasteStringFindings []finding
+
 // readDelay: when non-zero, the scripted reader of the next implReader… call pauses this long before
 // every Read but the first (set and reset by the slow-link cases only; the streams are sequential)
 var readDelay time.Duration
@@ -167,6 +172,16 @@ func implReaderC(chunks [][]byte, eof bool, failData []byte, budget int) (msgs [
 		case st := <-done:
 			// a receiver may keep a message for as long as it likes: what it says must not change when
 			// the reader goes on (a message that shares memory with a buffer the reader reuses would)
+			for _, m := range held {
+				// a paste never looks like a key press to code that compares key strings (the library
+				// brackets it for that purpose): "[text]", whatever its length
+				if k, ok := m.(tea.KeyMsg); ok && k.Paste && len(pasteStringFindings) < 3 {
+					if want := "[" + string(k.Runes) + "]"; k.String() != want {
+						pasteStringFindings = append(pasteStringFindings, finding{Class: "new", What: "the string form of a paste message is not the bracketed text: key bindings that compare strings would take pasted text for a key press",
+							Input: readerLine(chunks, eof), Expected: want, Observed: k.String()})
+					}
+				}
+			}
 			for i, m := range held {
 				if now := tea.VerifDescribeMsg(m); now != msgs[i] && len(aliasFindings) < 3 {
 					aliasFindings = append(aliasFindings, finding{Class: "new", What: "a delivered message changed after it had been delivered (it shares memory with something the reader went on using)",
@@ -1051,8 +1066,73 @@ func streamReader(c *corrOut, g *inputGen, r *rng, n int, thorough bool) {
 			c.addFinding(finding{Property: "C09", Class: "new", What: "reader " + st, Input: readerLine(chunks, eof), Observed: line})
 		}
 	}
+	greedyReaderStreams(c, g, r)
 	twoReadersAtOnce(c, g, r, 6)
 	drainAliasFindings(c)
+}
+
+// greedyReaderStreams: long streams (5 to 10 KB of well-formed events) served by a reader that fills
+// WHATEVER buffer it is handed (a file or pipe with everything already pending) - not by a script of
+// 256-byte chunks. Whatever size of buffer the library reads into, the messages are the stream's
+// events (C15: the same as if the whole input had been decoded at once; C09: nothing lost).
+func greedyReaderStreams(c *corrOut, g *inputGen, r *rng) {
+	kr := g.doc.KeyRunes
+	for rep := 0; rep < 6; rep++ {
+		var evs []event
+		total := 0
+		for tries := 0; total < 5000+rep*1000 && tries < 400; tries++ {
+			// (no care about ambiguous boundaries: the reference below is the same BYTES in 256-byte reads)
+			seg := g.randSegment(r, r.rangeIn(20, 60))
+			evs = append(evs, seg...)
+			total += len(concatEvents(seg))
+		}
+		// merge adjacent rune runs the way expectedOf does for a single segment: rebuild from the bytes
+		all := concatEvents(evs)
+		ch := make(chan tea.Msg)
+		done := make(chan struct{})
+		ctx, cancel := context.WithCancel(context.Background())
+		go func() {
+			defer close(done)
+			defer func() { recover() }()
+			tea.VerifReadAnsiInputs(ctx, ch, bytes.NewReader(all))
+		}()
+		var got []string
+		timeout := time.After(10 * time.Second)
+	recv:
+		for {
+			select {
+			case m := <-ch:
+				got = append(got, tea.VerifDescribeMsg(m))
+			case <-done:
+				break recv
+			case <-timeout:
+				got = append(got, "stall")
+				break recv
+			}
+		}
+		cancel()
+		// the reference: the same bytes through the scripted reader in full 256-byte reads (what the
+		// library's own buffer size makes of them), which the model and the expectation oracle cover
+		ref, _ := implReader(fullReads(all), true)
+		_ = kr
+		if strings.Join(got, " | ") != strings.Join(ref, " | ") {
+			i := 0
+			for i < len(got) && i < len(ref) && got[i] == ref[i] {
+				i++
+			}
+			exp, obs := "(end)", "(end)"
+			if i < len(ref) {
+				exp = ref[i]
+			}
+			if i < len(got) {
+				obs = got[i]
+			}
+			for _, prop := range []string{"C15", "C09"} {
+				c.addFinding(finding{Property: prop, Class: "new", What: "a long stream read through a reader that fills any buffer it is given does not decode like the same stream in 256-byte reads (an event was split, dropped or turned into spurious keys)",
+					Input: fmt.Sprintf("%d bytes of well-formed events, everything pending at once", len(all)), Expected: fmt.Sprintf("message %d: %s", i, exp), Observed: obs})
+			}
+		}
+	}
 }
 
 func drainAliasFindings(c *corrOut) {
@@ -1064,9 +1144,25 @@ func drainAliasFindings(c *corrOut) {
 		}
 	}
 	aliasFindings = nil
+	for _, f := range pasteStringFindings {
+		f.Property = "C10"
+		c.addFinding(f)
+	}
+	pasteStringFindings = nil
 }
 
 func cmdCorr(args []string) int {
+	// last resort, as for the scenario sets: a stream that does not finish says where it is stuck
+	go func() {
+		limit := 10 * time.Minute
+		if len(args) > 4 && args[4] == "thorough" {
+			limit = 2 * time.Hour
+		}
+		time.Sleep(limit)
+		fmt.Fprintln(os.Stderr, "harness: correspondence stream did not finish within", limit)
+		fmt.Fprintln(os.Stderr, goroutineDump())
+		os.Exit(3)
+	}()
 	if len(args) < 4 {
 		fmt.Println("usage: harness corr <stream> <seed> <n> <dir> [thorough]")
 		return 2
